@@ -139,6 +139,10 @@ def run_families(name: str, cases: List[Case], rng: random.Random,
         violations.append({"kind": "correspondence", "signature": None,
                            "what": f"harness could not represent {nhe} of {len(cases)} cases, first: {msg}",
                            "case": c.to_json()})
+    if oracle_errors:
+        # an oracle that cannot judge a case judges nothing: never quietly
+        violations.append({"kind": "correspondence", "signature": None,
+                           "what": f"the direct oracle of {name} raised on {len(oracle_errors)} of {len(good)} cases, first: {oracle_errors[0]}"})
     # coverage statistics
     dist = collections.Counter(outcome_class(c.obs) for c in good)
     kinds = collections.Counter(c.v[0] for c in good)
